@@ -190,6 +190,11 @@ func (p *c06) Exec(t *testing.T, scAny any) Outcome {
 				m.SetMessageIDWithValue(ms.Token + "@sim.example")
 				md := &c06Model{}
 				for oi, op := range ms.Ops {
+					if oi > 0 && (oi+mi+int(sc.Sched%3))%3 == 0 {
+						// the message is rendered between two setter calls (a preview, a draft
+						// saved to disk): rendering must not fix or alter any address state
+						_, _ = Render(m)
+					}
 					var texts []string
 					for _, a := range op.Addrs {
 						texts = append(texts, addrText(a))
